@@ -16,6 +16,15 @@
 (*   ifnest c1 c2 x y / ifcall c1 x y   a nested if / a call inside a branch*)
 (*   ifret  c x                 if c { return x }      (early return)      *)
 (*   loop   n op x y            v := x; for i := 0; i < n; i++ { v = v op y}*)
+(*   loopret n k op x y         the same loop with `if i == k { return v }`   *)
+(*                              in front of the body (a return guarded by the *)
+(*                              loop variable: decided while unrolling)       *)
+(*   looprc n c op x y          the same loop with `if c { return v }` (a     *)
+(*                              run-time condition) in front of the body      *)
+(*   nest   n op x y            for i < n { for j < 2 { v = v op y } }        *)
+(*   loopi  n op x              v := x; for i < n { v = v op T(i) }           *)
+(*   shadow c x y               a local that shadows a package-level variable,*)
+(*                              a run-time if that does not touch it, a read  *)
 (*   arr    x y z / idx A i / aset A i x      arrays of three elements     *)
 (*   mat x y z w / midx M i j / mset M i j x   a 2 x 2 array of arrays      *)
 (*   asetl A i c / fsetl S k c                 a literal stored into an     *)
@@ -126,7 +135,7 @@ TypesOf(p, n) ==   \* sequence of the types of variables 1..2+n
     ELSE LET ts == TypesOf(p, n - 1)
              s == p.stmts[n]
              t == CASE s.k = "const" -> <<s.t>>
-                    [] s.k \in {"bin", "binlit", "neg", "shift", "loop"} -> <<ts[s.x]>>
+                    [] s.k \in {"bin", "binlit", "neg", "shift", "loop", "loopret", "looprc", "nest", "loopi", "shadow"} -> <<ts[s.x]>>
                     [] s.k \in {"cmp", "cmplit", "logic", "not"} -> <<BT>>
                     [] s.k = "cast" -> <<s.t>>
                     [] s.k \in {"if", "ifnest", "ifcall"} -> <<ts[s.x]>>
@@ -185,6 +194,16 @@ AddStmt ==
           \/ "ifret" \in Kinds /\ \E c \in bools : \E x \in ints : add(S("ifret", x, 0, c, "", <<>>, 0))
           \/ "loop" \in Kinds /\ \E x \in ints : \E y \in {v \in ints : ts[v] = ts[x]} : \E op \in {"+", "-", "*", "^"} : \E n \in {0, 1, 3} :
                 add(S("loop", x, y, 0, op, <<>>, n))
+          \/ "loopret" \in Kinds /\ \E x \in ints : \E y \in {v \in ints : ts[v] = ts[x]} : \E op \in {"+", "-", "^"} : \E n \in {1, 3} :
+                \E k \in 0..n : add(S("loopret", x, y, k, op, <<>>, n))
+          \/ "loopret" \in Kinds /\ \E x \in ints : \E y \in {v \in ints : ts[v] = ts[x]} : \E op \in {"+", "-", "^"} : \E n \in {1, 3} :
+                \E c \in bools : add(S("looprc", x, y, c, op, <<>>, n))
+          \/ "nest" \in Kinds /\ \E x \in ints : \E y \in {v \in ints : ts[v] = ts[x]} : \E op \in {"+", "-", "*", "^"} : \E n \in {1, 2} :
+                add(S("nest", x, y, 0, op, <<>>, n))
+          \/ "nest" \in Kinds /\ \E x \in {v \in ints : W(ts[v]) >= 3} : \E op \in {"+", "-", "^"} : \E n \in {1, 3} :
+                add(S("loopi", x, 0, 0, op, <<>>, n))
+          \/ "shadow" \in Kinds /\ \E c \in bools : \E x \in ints : \E y \in {v \in ints : ts[v] = ts[x]} :
+                add(S("shadow", x, y, c, "", <<>>, 0))
           \/ "arr" \in Kinds /\ \E x \in ints : \E y \in {v \in ints : ts[v] = ts[x]} : \E z \in {v \in ints : ts[v] = ts[x]} :
                 add(S("arr", x, y, z, "", <<>>, 0))
           \/ "arr" \in Kinds /\ \E a \in arrs : \E i \in 0..2 : add(S("idx", a, 0, 0, "", <<>>, i))
@@ -213,7 +232,7 @@ Close ==
     /\ phase = "build" /\ Len(prog.stmts) >= 1
     /\ LET ts == TypesOf(prog, Len(prog.stmts))
            cands == {v \in 1..Len(ts) : IsInt(ts[v]) /\
-                       \A i \in 1..Len(prog.stmts) : prog.stmts[i].k = "ifret" => ts[prog.stmts[i].x] = ts[v]}
+                       \A i \in 1..Len(prog.stmts) : prog.stmts[i].k \in {"ifret", "loopret", "looprc"} => ts[prog.stmts[i].x] = ts[v]}
        IN \E r \in cands : prog' = [prog EXCEPT !.ret = r]
     /\ phase' = "closed"
 
@@ -223,6 +242,9 @@ Spec == Init /\ [][Next]_vars
 (***************************************************************************)
 (* The interpreter                                                         *)
 (***************************************************************************)
+RECURSIVE Iter(_, _, _, _)
+Iter(op, k, acc, y) == IF k = 0 THEN acc ELSE Iter(op, k - 1, Bin(op, acc, y), y)
+
 \* executes statements i..n on environment env (a sequence of values); yields <<returned?, value or env>>
 RECURSIVE Exec(_, _, _)
 Exec(p, i, env) ==
@@ -232,6 +254,8 @@ Exec(p, i, env) ==
              y == IF s.y > 0 THEN env[s.y] ELSE 0
          IN
          IF s.k = "ifret" /\ env[s.z].v = 1 THEN <<TRUE, x>>
+         ELSE IF s.k = "looprc" /\ env[s.z].v = 1 THEN <<TRUE, x>>       \* returns in the first iteration (n >= 1)
+         ELSE IF s.k = "loopret" /\ s.z < s.c THEN <<TRUE, Iter(s.op, s.z, x, y)>>
          ELSE LET new ==
                 CASE s.k = "const" -> <<Val(s.t, s.c)>>
                   [] s.k = "bin" -> <<Bin(s.op, x, y)>>
@@ -253,6 +277,14 @@ Exec(p, i, env) ==
                        LET RECURSIVE It(_, _)
                            It(k, acc) == IF k = 0 THEN acc ELSE It(k - 1, Bin(s.op, acc, y))
                        IN <<It(s.c, x)>>
+                  [] s.k \in {"loopret", "looprc"} -> <<Iter(s.op, s.c, x, y)>>
+                  [] s.k = "nest" -> <<Iter(s.op, 2 * s.c, x, y)>>
+                  [] s.k = "loopi" ->
+                       LET RECURSIVE Iti(_, _)
+                           Iti(j, acc) == IF j = s.c THEN acc ELSE Iti(j + 1, Bin(s.op, acc, Val(x.t, j)))
+                       IN <<Iti(0, x)>>
+                  \* g := x (shadows a package-level g); t := y; if c { t = t + 1 }; v := g + t
+                  [] s.k = "shadow" -> <<Bin("+", x, IF env[s.z].v = 1 THEN BinL("+", y, 1) ELSE y)>>
                   [] s.k = "arr" -> <<[t |-> ArrT(x.t), v |-> <<x, y, env[s.z]>>]>>
                   [] s.k = "idx" -> <<x.v[s.c + 1]>>
                   [] s.k = "aset" -> <<[x EXCEPT !.v[s.c + 1] = y]>>
